@@ -292,6 +292,25 @@ def main():
         else:
             real_fail.append((n, mod, mm, fm, v, oid))
 
+    # a known-finding obligation that the verifier leaves undecided (resource limit on an unprovable statement) is
+    # still the known finding as long as its recorded input reproduces against the real code
+    still_und = []
+    for (n, mod, mm, fm, v) in und_f:
+        oid = f"{n}::{norm_hdr(mm.get('header'))}::{fm.get('display', fm['fn'])}{fm.get('variant', '')}"
+        k = kf_obl.get(oid)
+        ok = False
+        if k and k.get("replay") and v is not None:
+            try:
+                from vx import replay as vreplay
+                ok = vreplay.known_finding_reproduces(k["replay"])
+            except Exception:
+                ok = False
+        if ok:
+            kf_lines.append((oid, k))
+        else:
+            still_und.append((n, mod, mm, fm, v))
+    und_f = still_und
+
     # obligations listed as known findings (expected to fail, their region-guarded twins must verify) are reported
     # separately and are not part of the proof-level count
     n_kf = len(kf_lines)
